@@ -175,11 +175,15 @@ def translate(src_root):
     L = []
     emit = L.append
     emit("""import DtsVerif.Props.C06
+import DtsVerif.Props.C04
 import Mathlib.Tactic.Ring
 import Mathlib.Tactic.FieldSimp
 /-! GENERATED by harness/translate.py from the current dts_accessor.py — do not edit. -/
 set_option linter.unusedSimpArgs false
 set_option linter.unusedVariables false
+set_option linter.unusedTactic false
+set_option linter.unreachableTactic false
+set_option linter.unnecessarySeqFocus false
 namespace DtsVerif.Gen
 open DtsVerif.Propagate
 variable {K : Type} [Field K]
@@ -377,7 +381,237 @@ variable {K : Type} [Field K]
     return "\n".join(L) + "\n", names
 
 
+
+
+# ================================================================================================ parameter layout
+class _Sym:
+    """tiny symbolic evaluator for the index arithmetic of ParameterIndex*: integers in nt, nx (N), nta -> Lean Nat text"""
+
+    def __init__(self, names):
+        self.names = names
+
+    def expr(self, n):
+        k = _key(n)
+        if k in self.names:
+            return self.names[k]
+        if isinstance(n, ast.Constant) and isinstance(n.value, int) and not isinstance(n.value, bool) and n.value >= 0:
+            return str(n.value)
+        if isinstance(n, ast.BinOp) and isinstance(n.op, (ast.Add, ast.Mult)):
+            return f"({self.expr(n.left)} {'+' if isinstance(n.op, ast.Add) else '*'} {self.expr(n.right)})"
+        raise Untranslatable(f"index arithmetic outside the fragment: {ast.unparse(n)[:80]}")
+
+
+def _flag_eval(test, flags):
+    """evaluate a test over boolean attributes self.<flag> (and, or, not); None if it mentions anything else"""
+    if isinstance(test, ast.Attribute) and isinstance(test.value, ast.Name) and test.value.id == "self" and test.attr in flags:
+        return flags[test.attr]
+    if isinstance(test, ast.UnaryOp) and isinstance(test.op, ast.Not):
+        v = _flag_eval(test.operand, flags)
+        return None if v is None else not v
+    if isinstance(test, ast.BoolOp):
+        vs = [_flag_eval(v, flags) for v in test.values]
+        if None in vs:
+            return None
+        return all(vs) if isinstance(test.op, ast.And) else any(vs)
+    if isinstance(test, ast.Compare) and ast.unparse(test) == "self.nta == 0":
+        return False      # the layout is translated for nta > 0; nta = 0 is the empty block
+    return None
+
+
+def _run_property(fn, flags):
+    """follow the if-chain of a @property for concrete flags; returns (assignments dict, returned expression node)"""
+    env = {}
+
+    def run(body):
+        for st in body:
+            if isinstance(st, ast.Expr) and isinstance(st.value, ast.Constant):
+                continue   # docstring
+            if isinstance(st, ast.If):
+                v = _flag_eval(st.test, flags)
+                if v is None:
+                    raise Untranslatable(f"{fn.name}: cannot decide `{ast.unparse(st.test)}`")
+                r = run(st.body if v else st.orelse)
+                if r is not None:
+                    return r
+            elif isinstance(st, ast.Assign) and len(st.targets) == 1 and isinstance(st.targets[0], ast.Name):
+                env[st.targets[0].id] = st.value
+            elif isinstance(st, ast.Return):
+                return st.value
+            else:
+                raise Untranslatable(f"{fn.name}: statement outside the fragment: {ast.unparse(st)[:60]}")
+        return None
+
+    r = run(fn.body)
+    if r is None:
+        raise Untranslatable(f"{fn.name}: no return reached for {flags}")
+    return env, r
+
+
+def _range_of(node, env, sym):
+    """[c] | list(range(a, b)) | np.arange(a, b) (possibly through a local name) -> (lo, hi) Lean text"""
+    if isinstance(node, ast.Name) and node.id in env:
+        node = env[node.id]
+    if isinstance(node, ast.List) and len(node.elts) == 1:
+        lo = sym.expr(node.elts[0])
+        return lo, f"({lo} + 1)"
+    if isinstance(node, ast.Call) and _key(node.func) == "list" and len(node.args) == 1:
+        node = node.args[0]
+    if isinstance(node, ast.Call) and _key(node.func) in ("range", "np.arange") and len(node.args) == 2 and not node.keywords:
+        return sym.expr(node.args[0]), sym.expr(node.args[1])
+    raise Untranslatable(f"not a contiguous index range: {ast.unparse(node)[:80]}")
+
+
+def _reshape_of(node, env, sym):
+    """X.reshape((d...), order=O) with X a contiguous range -> (lo, hi, dims, order)"""
+    if not (isinstance(node, ast.Call) and isinstance(node.func, ast.Attribute) and node.func.attr == "reshape" and len(node.args) == 1
+            and isinstance(node.args[0], ast.Tuple)):
+        raise Untranslatable(f"not a reshape of a range: {ast.unparse(node)[:80]}")
+    order = "C"
+    for kw in node.keywords:
+        if kw.arg == "order" and isinstance(kw.value, ast.Constant):
+            order = kw.value.value
+        else:
+            raise Untranslatable("reshape keyword outside the fragment")
+    lo, hi = _range_of(node.func.value, env, sym)
+    return lo, hi, [sym.expr(d) for d in node.args[0].elts], order
+
+
+def _pos(dims, idx, order):
+    """flat offset of multi-index idx in an array of shape dims (Lean Nat text)"""
+    if order == "F":
+        e = idx[-1]
+        for d, i in zip(reversed(dims[:-1]), reversed(idx[:-1])):
+            e = f"({i} + {d} * {e})"
+        return e
+    e = idx[0]
+    for d, i in zip(dims[1:], idx[1:]):
+        e = f"({e} * {d} + {i})"
+    return e
+
+
+def _class(tree, name):
+    for node in ast.walk(tree):
+        if isinstance(node, ast.ClassDef) and node.name == name:
+            return {f.name: f for f in node.body if isinstance(f, ast.FunctionDef)}
+    raise Untranslatable(f"class {name} not found")
+
+
+def _close(defs):
+    """closing script for an equation between Nat expressions after unfolding `defs`; leaves the goal open (= error) if false"""
+    return f"by\n  try simp only [{defs}]\n  all_goals try ring\n  all_goals try omega"
+
+
+def translate_layout(src_root):
+    """Lean text: the index blocks of ParameterIndexDoubleEnded / ParameterIndexSingleEnded as the source computes them, with
+    theorems that they are the documented positions `C04.indexD` / `C04.indexS` (all nt, nx, nta)"""
+    utils = ast.parse((Path(src_root) / "dtscalibration" / "dts_accessor_utils.py").read_text())
+    L = []
+    emit = L.append
+    emit("\nnamespace DtsVerif.GenLayout\nopen DtsVerif.C04\n")
+    sym = _Sym({"self.nt": "nt", "self.nx": "N", "self.nta": "nta", "self.npar": "(nparG nt N nta)"})
+    # ------------------------------------------------------------------------------------------------ double ended
+    PD = _class(utils, "ParameterIndexDoubleEnded")
+    flags = dict(fix_gamma=False, fix_alpha=False)
+    env, r = _run_property(PD["npar"], flags)
+    emit(f"def nparG (nt N nta : Nat) : Nat := {sym.expr(r)}")
+    emit("theorem nparG_eq (nt N nta : Nat) : nparG nt N nta = nparD nt N nta := " + _close("nparG, nparD") + "\n")
+    blocks = []
+    for prop, ctor, size in (("gamma", "Sum.inl ()", "1"), ("df", "Sum.inr (Sum.inl j)", "nt"), ("db", "Sum.inr (Sum.inr (Sum.inl j))", "nt"),
+                             ("alpha", "Sum.inr (Sum.inr (Sum.inr (Sum.inl j)))", "N")):
+        env, r = _run_property(PD[prop], flags)
+        lo, hi = _range_of(r, env, sym)
+        emit(f"def {prop}Lo (nt N nta : Nat) : Nat := {lo}")
+        emit(f"def {prop}Hi (nt N nta : Nat) : Nat := {hi}")
+        emit(f"theorem {prop}_size (nt N nta : Nat) : {prop}Hi nt N nta = {prop}Lo nt N nta + {size} := " + _close(f"{prop}Hi, {prop}Lo"))
+        if prop == "gamma":
+            emit(f"theorem {prop}_slot (nt N nta : Nat) : {prop}Lo nt N nta = indexD nt N nta (Sum.inl ()) := " + _close(f"{prop}Lo, indexD"))
+        else:
+            emit(f"theorem {prop}_slot (nt N nta : Nat) (j : Fin {size}) : {prop}Lo nt N nta + j = indexD nt N nta ({ctor}) := " + _close(f"{prop}Lo, indexD"))
+    env, r = _run_property(PD["ta"], flags)
+    lo, hi, dims, order = _reshape_of(r, env, sym)
+    if len(dims) != 3:
+        raise Untranslatable(f"ta is reshaped to {len(dims)} dimensions")
+    emit(f"def taLo (nt N nta : Nat) : Nat := {lo}")
+    emit(f"def taHi (nt N nta : Nat) : Nat := {hi}")
+    emit(f"theorem ta_size (nt N nta : Nat) : taHi nt N nta = taLo nt N nta + {dims[0]} * {dims[1]} * {dims[2]} := " + _close("taHi, taLo, nparG"))
+    emit(f"def taAt (nt N nta t d a : Nat) : Nat := taLo nt N nta + {_pos(dims, ['t', 'd', 'a'], order)}")
+    emit("theorem ta_slot (nt N nta : Nat) (a : Fin nta) (d : Fin 2) (t : Fin nt) :\n"
+         "    taAt nt N nta t d a = indexD nt N nta (Sum.inr (Sum.inr (Sum.inr (Sum.inr (a, d, t))))) := " + _close("taAt, taLo, indexD") + "\n")
+    # taf / tab: self.ta[:, k, :].flatten(order=O), read back by get_params_from_pval_double_ended with reshape((nt, nta), order=O')
+    G = None
+    for node in ast.walk(utils):
+        if isinstance(node, ast.FunctionDef) and node.name == "get_params_from_pval_double_ended":
+            G = node
+    if G is None:
+        raise Untranslatable("get_params_from_pval_double_ended not found")
+    reads = {}
+    for node in ast.walk(G):
+        if isinstance(node, ast.Call) and isinstance(node.func, ast.Attribute) and node.func.attr == "reshape" \
+                and isinstance(node.func.value, ast.Subscript) and _key(node.func.value.value) == "p_val":
+            which = _key(node.func.value.slice)
+            o = "C"
+            for kw in node.keywords:
+                if kw.arg == "order":
+                    o = kw.value.value
+            dims_r = [ast.unparse(d) for d in node.args[0].elts] if node.args and isinstance(node.args[0], ast.Tuple) else None
+            reads[which] = (o, dims_r)
+    for prop, d in (("taf", 0), ("tab", 1)):
+        env, r = _run_property(PD[prop], flags)
+        src = ast.unparse(r)
+        o = None
+        for cand in ("C", "F"):
+            if src == f"self.ta[:, {d}, :].flatten(order='{cand}')":
+                o = cand
+        if o is None:
+            raise Untranslatable(f"{prop} is no longer self.ta[:, {d}, :].flatten(order=...): {src}")
+        ro, rd = reads.get(f"ip.{prop}", (None, None))
+        if rd != ["ip.nt", "ip.nta"]:
+            raise Untranslatable(f"get_params_from_pval_double_ended no longer reshapes p_val[ip.{prop}] to (ip.nt, ip.nta): {rd}")
+        emit(f"def {prop}Flat (nt nta t a : Nat) : Nat := {_pos(['nt', 'nta'], ['t', 'a'], o)}   -- where flatten puts ta[t, {d}, a]")
+        emit(f"def {prop}Read (nt nta t a : Nat) : Nat := {_pos(['nt', 'nta'], ['t', 'a'], ro)}   -- where the reader looks for [t, a]")
+        emit(f"theorem {prop}_roundtrip (nt nta t a : Nat) : {prop}Flat nt nta t a = {prop}Read nt nta t a := " + _close(f"{prop}Flat, {prop}Read"))
+    emit("")
+    # ------------------------------------------------------------------------------------------------ single ended
+    PS = _class(utils, "ParameterIndexSingleEnded")
+    syms = _Sym({"self.nt": "nt", "self.nx": "N", "self.nta": "nta"})
+    for tag, fl in (("Da", dict(includes_alpha=False, includes_dalpha=True)), ("Al", dict(includes_alpha=True, includes_dalpha=False))):
+        env, r = _run_property(PS["npar"], fl)
+        emit(f"def npar{tag} (nt N nta : Nat) : Nat := {syms.expr(r)}")
+        env, r = _run_property(PS["c"], fl)
+        clo, chi = _range_of(r, env, syms)
+        emit(f"def c{tag}Lo (nt N nta : Nat) : Nat := {clo}")
+        emit(f"def c{tag}Hi (nt N nta : Nat) : Nat := {chi}")
+        emit(f"theorem c{tag}_size (nt N nta : Nat) : c{tag}Hi nt N nta = c{tag}Lo nt N nta + nt := " + _close(f"c{tag}Hi, c{tag}Lo"))
+        env, r = _run_property(PS["taf"], fl)
+        lo, hi, dims, order = _reshape_of(r, env, syms)
+        if len(dims) != 2:
+            raise Untranslatable("single-ended taf is not a 2-d reshape")
+        emit(f"def taf{tag}Lo (nt N nta : Nat) : Nat := {lo}")
+        emit(f"def taf{tag}At (nt N nta t a : Nat) : Nat := taf{tag}Lo nt N nta + {_pos(dims, ['t', 'a'], order)}")
+        emit(f"theorem taf{tag}_size (nt N nta : Nat) : {hi} = taf{tag}Lo nt N nta + {dims[0]} * {dims[1]} := " + _close(f"taf{tag}Lo"))
+        if tag == "Da":
+            env, r = _run_property(PS["dalpha"], fl)
+            dlo, _ = _range_of(r, env, syms)
+            emit(f"theorem nparDa_eq (nt N nta : Nat) : nparDa nt N nta = nparS nt nta := " + _close("nparDa, nparS"))
+            emit(f"theorem dalphaDa_slot (nt nta : Nat) : {dlo} = indexS nt nta (Sum.inr (Sum.inl ())) := " + _close("indexS"))
+            emit("theorem cDa_slot (nt N nta : Nat) (j : Fin nt) : cDaLo nt N nta + j = indexS nt nta (Sum.inr (Sum.inr (Sum.inl j))) := " + _close("cDaLo, indexS"))
+            emit("theorem tafDa_slot (nt N nta : Nat) (a : Fin nta) (t : Fin nt) :\n"
+                 "    tafDaAt nt N nta t a = indexS nt nta (Sum.inr (Sum.inr (Sum.inr (a, t)))) := " + _close("tafDaAt, tafDaLo, indexS"))
+        else:
+            env, r = _run_property(PS["alpha"], fl)
+            alo, ahi = _range_of(r, env, syms)
+            emit(f"theorem alphaAl_block (nt N nta : Nat) : {alo} = 1 ∧ {ahi} = 1 + N ∧ cAlLo nt N nta = 1 + N ∧ tafAlLo nt N nta = 1 + N + nt ∧ "
+                 "nparAl nt N nta = 1 + N + nt + nt * nta := by\n  refine ⟨?_, ?_, ?_, ?_, ?_⟩\n  all_goals try simp only [cAlLo, tafAlLo, nparAl]\n  all_goals try ring")
+            emit("theorem tafAl_slot (nt N nta t a : Nat) : tafAlAt nt N nta t a = 1 + N + nt + a * nt + t := " + _close("tafAlAt, tafAlLo"))
+    emit("\nend DtsVerif.GenLayout")
+    return "\n".join(L) + "\n"
+
+
+def translate_all(src_root):
+    text, names = translate(src_root)
+    return text + translate_layout(src_root), names
+
+
 if __name__ == "__main__":
     import sys
-    text, names = translate(sys.argv[1] if len(sys.argv) > 1 else os.environ.get("DTS_SRC", "/repo/src"))
-    print(text)
+    print(translate_all(sys.argv[1] if len(sys.argv) > 1 else os.environ.get("DTS_SRC", "/repo/src"))[0])
